@@ -459,7 +459,8 @@ def run(chk):
     ds = src.func(MP, "MatrixProduct.distance")
     import sympy as sp
     a, b, x = sp.symbols("l1 l2 x")
-    asg = {unparse(s.targets[0]): s.value for s in ast.walk(ds.node) if isinstance(s, ast.Assign) and isinstance(s.targets[0], ast.Name)}
+    from ..src import inline_adjacent_temps
+    asg = {unparse(s.targets[0]): s.value for s in ast.walk(inline_adjacent_temps(ds.node)) if isinstance(s, ast.Assign) and isinstance(s.targets[0], ast.Name)}
     form = unparse(asg.get("dis_square")).replace(" ", "") if "dis_square" in asg else ""
     calls = {k: unparse(v).replace(" ", "") for k, v in asg.items() if k in ("l1", "l2", "l1dotl2")}
     other = ds.params()[1]
